@@ -200,7 +200,7 @@ CLAIMED = {
        'write is held.',
   ref='6/C02', technique='Lean 4 proof (case analysis of the reply choice over arbitrary result lists; invariant of the enqueue event order) + differential correspondence vs real SmtpEdge/WsgiEdge/Queue/ProxyQueue'),
  'C06': dict(
-  text='PARTIAL (the SMTP hop is one end-to-end theorem about the client\'s bytes run through the server\'s command loop with accepting validators; the HTTP hop is stated per leg; TLS and '
+  text='PARTIAL (the SMTP hop is one end-to-end theorem about the client\'s bytes run through the server\'s command loop with accepting validators; the HTTP hop is one end-to-end theorem over the header list as the WSGI server presents it (http.client / pywsgi framing itself is modelled, not verified); TLS and '
        'the email package are outside the model as in C08/C20; Python\'s lenient base64 decoder is modelled on encoder output only). Lean theorems: '
        'the MAIL / RCPT command line Client.mailfrom / rcptto build for any clean address (every \'>\' inside a double-quoted run, quotes balanced, '
        'backslash escapes honoured, no line break; with or without SIZE) is parsed by the server model (parseCommand, matchPrefix, splitAddr of '
@@ -210,7 +210,7 @@ CLAIMED = {
        'byte strings in the same order; the reply code the HTTP edge writes into X-Smtp-Reply is the code the relay reads, whatever the reply text and command are (http_reply_code_preserved; header building as wsgiref does it, quoting included). End to end over SMTP (hop_delivers, session_delivers, session_delivers_any_segmentation): for every clean UTF-8 sender, every non-empty list of such recipients, every message cut into parts at line boundaries and within the SIZE limit, any number of messages on one connection and any segmentation of the bytes, the server\'s handlers see exactly that sender, those recipients in order and the CRLF-terminated message, each command is answered 250 / 354, and the session continues between transactions with exactly the bytes that followed (uses C05\'s reader theorem and C09\'s segmentation theorem). Tied to the code by real hops: StaticSmtpRelay -> '
        'socketpair -> SmtpEdge, HttpRelay -> loopback pywsgi -> WsgiEdge, StaticLmtpRelay -> recording LMTP peer, over generated envelopes (null '
        'sender, quoted / escaped / UTF-8 local parts, 1..20 recipients, C20 contents) x server configurations (PIPELINING / 8BITMIME / SMTPUTF8 / SIZE, '
-       'EHLO 500 -> HELO, queue verdicts, two messages per connection), wire bytes tapped and compared with the model line by line and as whole transactions (hopBytes, with the parts the relay client handed to Client.send_data), plus unit differentials.',
+       'EHLO 500 -> HELO, queue verdicts, two messages per connection), wire bytes tapped and compared with the model line by line and as whole transactions (hopBytes, with the parts the relay client handed to Client.send_data), End to end over HTTP (http_hop_delivers, Model/HttpHop.lean): for every EHLO string, sender (null sender included), list of non-empty recipients and message data, the request HttpRelayClient writes (Content-Length = str(len), X-Ehlo, base64 sender, one base64 X-Envelope-Recipient each), with equally named headers joined by a comma as WSGI does, is read by WsgiEdge._get_envelope as exactly that EHLO string, sender, recipients in order and data cut at the announced length (int(str(n)) = n included: parse_decimal). Tied to the code request by request: the environ the real pywsgi server hands the real WsgiEdge and the envelope the edge builds are compared with the model\'s environ and edgeEnvelope; plus unit differentials.',
   ref='6/C06', technique='Lean 4 proof (round-trip theorems by induction over the scanners; base64 by arithmetic) + differential / end-to-end correspondence vs real relay clients and edges',
   note='Partial: per-leg theorems composed informally; TLS, email package and lenient base64 decoding outside the model.'),
  'C14': dict(
